@@ -276,7 +276,8 @@ class Index(E):
 
 
 class Prop(E):
-    """root 之 name"""
+    """root 之 name — the member node stands on the line of the member NAME (calleeTailParser: setStmtCurrentLine(memberExpr, name
+    token)); a root that spans lines (a multi-line text, a list over several lines) therefore does not give the node its first line"""
 
     def __init__(self, root, name, dot='之'):
         self.root, self.name, self.dot = root, name, dot
@@ -290,7 +291,7 @@ class Prop(E):
 
 
 class This(E):
-    """其 name"""
+    """其 name — the member node stands on the line of the member name, like `root 之 name`"""
 
     def __init__(self, name):
         self.name = name
@@ -298,7 +299,7 @@ class This(E):
     def emit(self, r):
         r.w('其' + self.name)
         line = r.line
-        return '(member 0 2 nil 1 (id %d %s) nil)' % (line, hx(self.name))
+        return '(member %d 2 nil 1 (id %d %s) nil)' % (line, line, hx(self.name))
 
 
 class Assign(E):
